@@ -61,6 +61,10 @@ def check(case: dict):
     g, sol, kind = mz["g"], mz["sol"], mz["kind"]
     tok = call("C06:construct", _tokenizer, json.dumps(params, sort_keys=True))
     m = L.make_kind(kind, g, sol, dtype=L.provenance(case, g))
+    if kind == "solved" and core.digest(case) % 3 == 0:
+        # a caller looked at the solution's forking points first and kept editing what it got
+        for flag in (True, False):
+            core.scribble(call("C06:forking_points", m.get_solution_forking_points, always_include_endpoints=flag))
     toks = call("C06:to_tokens", tok.to_tokens, m)
     require(isinstance(toks, list) and all(isinstance(t, str) for t in toks), "C06:token-types", "to_tokens did not return a list of strings")
     bad = [t for t in toks if t not in vocab()]
@@ -222,6 +226,9 @@ def subs(tier: str):
     # quick: every configuration of a region on a few mazes; thorough: on the whole pool
     pool_adj = [pool[i] for i in (0, 2, 4, 6, 10, 12)] if q else pool
     pool_path = [pool[i] for i in (2, 6, 12)] if q else pool
+    # one-cell and two-cell solutions (start == end; a single step) for every path tokenizer
+    short = [{"g": pool[4]["g"], "sol": pool[4]["sol"][:1], "kind": "solved"}, {"g": pool[6]["g"], "sol": pool[6]["sol"][:2], "kind": "solved"}]
+    pool_path = pool_path + short
     tuples, total_pairs = pairwise_set(0)
     return [
         Sub("adjacency-region-exhaustive", check, "exhaustive", cases=_region_cases(pool_adj, "adj"), exhaustive_flag=True),
